@@ -27,6 +27,16 @@ F_SERIAL = ["RModel.Facts.serialCookie_spec", "RModel.Facts.serialCookieNoRun_sp
 F_THRESH = ["RModel.Facts.arrayDefaultMaxSize_spec", "RModel.Facts.maxCapacity_spec", "RModel.Facts.bitmap_sizes",
             "RModel.Facts.invalidCardinality_spec", "RModel.Facts.maxUint_spec"]
 
+L1_AGG = ["RModel.BSet.mem_unionL", "RModel.BSet.mem_interL", "RModel.BSet.mem_xorL", "RModel.BSet.mem_andAny",
+          "RModel.BSet.canon_unionL", "RModel.BSet.canon_interL", "RModel.BSet.canon_xorL", "RModel.BSet.canon_andAny",
+          "RModel.BSet.unionL_perm"]
+AGG_OPS = {"fastor", "fastand", "heapor", "heapxor", "paror", "parand", "parheapor", "andany", "aggindep"}
+PAR = ["RModel.Par.hinv_step", "RModel.Par.hvariant_decreases", "RModel.Par.hno_deadlock", "RModel.Par.hquiescent_at_close",
+       "RModel.Par.hdelivered_complete", "RModel.Par.hinv_reach", "RModel.Par.hreach_bound", "RModel.Par.oinv_step",
+       "RModel.Par.ovariant_decreases", "RModel.Par.ono_deadlock", "RModel.Par.oquiescent_at_close",
+       "RModel.Facts.skeletonParHeapOr_pinned", "RModel.Facts.skeletonParAnd_pinned", "RModel.Facts.skeletonParOr_pinned",
+       "RModel.Facts.skeletonAppender_pinned", "RModel.Facts.skeletonParOr64_pinned"]
+
 L1_ALGEBRA = ["RModel.BSet.mem_combine", "RModel.BSet.canon_combine", "RModel.BSet.canon_ext",
               "RModel.BSet.mem_union", "RModel.BSet.mem_inter", "RModel.BSet.mem_xor", "RModel.BSet.mem_diff",
               "RModel.BSet.canon_union", "RModel.BSet.canon_inter", "RModel.BSet.canon_xor", "RModel.BSet.canon_diff"]
@@ -73,7 +83,7 @@ PROPS = {
             "theorems": ["RModel.Impl.safe_unflagged_not_foreign", "RModel.Impl.safe_addZeroCopy", "RModel.Impl.gate_not_foreign",
                          "RModel.Impl.detach_no_foreign'", "RModel.Impl.safe_reachable", "RModel.Impl.hdrLocal_run"],
             "owns": None},
-    "C09": {"suites": [("hist", 1.0), ("alg", 0.7), ("xform", 0.7), ("ser", 0.5), ("kernwf", 1.0), ("kernthresh", 1.0), ("thresh", 0.5)],
+    "C09": {"suites": [("hist", 1.0), ("alg", 0.7), ("xform", 0.7), ("ser", 0.5), ("kernwf", 1.0), ("kernthresh", 1.0), ("thresh", 0.5), ("agg", 0.5)],
             "theorems": ["RModel.Impl.wf_implies_validate", "RModel.Impl.validate_implies_wf_of_decoded", "RModel.BSet.canon_ext"] + F_THRESH,
             "modules": DEFAULT_MODULES + [FACTS, "RProofs.Properties.C09"],
             "owns": {"wf", "kernwf"}},
@@ -82,6 +92,12 @@ PROPS = {
                          "RModel.Impl.decoded_valid_is_wf", "RModel.Impl.validate_implies_wf_of_decoded",
                          "RModel.BSet.canon_ext"] + F_SERIAL,
             "modules": DEFAULT_MODULES + [FACTS, "RProofs.Properties.C09", "RProofs.Properties.C05"], "owns": None},
+    "C11": {"suites": [("agg", 1.0)], "theorems": L1_AGG + L1_ALGEBRA, "modules": DEFAULT_MODULES + ["RProofs.Agg"], "owns": set(AGG_OPS)},
+    # C12: schedule independence / termination / no leak (sched), concurrent decoding through the pools (concdec); the
+    # protocol theorems are about the transition systems of Impl/Par.lean, pinned to the source by the skeleton obligations
+    "C12": {"suites": [("sched", 1.0)], "theorems": PAR + L1_AGG[:3],
+            "modules": DEFAULT_MODULES + ["RProofs.Agg", "RProofs.Par", "RProofs.Facts.Skeleton"], "owns": {"sched", "concdec"},
+            "race_suites": [("sched", 1.0)]},
     "C13": {"suites": [("frozen", 1.0), ("frozenmis", 0.5)], "theorems": ["RModel.BSet.canon_ext", "RModel.Facts.frozenCookie_spec"],
             "modules": DEFAULT_MODULES + [FACTS],
             "owns": {"frz", "frzsmall", "frzwfail", "fview", "fdec", "fspec", "fchk", "fgc", "wf", "dig", "eq", "card", "toarr"}},
